@@ -40,6 +40,11 @@ CHECKS = {
     technique="TLA+ source-level semantics + product with Machine (AsmRefine.tla); the real assembler's output for each generated source program is validated by TLC in lock-step over all small register valuations",
     text="Source programs (labels anywhere incl. consecutive and trailing, literals in every operand position incl. array indices and slice bounds, forward/backward jumps, register pressure up to 15 named R registers, macros with prefix-related keys, bracketed arguments, comments) are assembled by the REAL assembler through the IR path and the text paths; TLC runs the source semantics and the assembled program block by block for every valuation of the named registers and checks agreement on named registers, arrays, shared memory, qubits, quantum events, branch targets, instruction order and length. The repository's executor is not involved.",
     note="Trusted: TLC, Machine.tla as instruction semantics, the rig's rendering of source programs (harness/eng_asm.py). Two defects found by this check were repaired in /repo (dcd0b1e, 0ec57d5)."),
+ "C12": dict(
+    engine="epr", category="model_checking", design="5 C12",
+    technique="TLA+ spec of request queues / pending responses / handler (Epr.tla): TLC checks invariants + liveness over all interleavings per scenario; ALL schedules of the real Executor (stateless DFS) are trace-validated by TLC (EprTrace) with the property invariants evaluated in every state",
+    text="Per scenario (13 quick / 16 thorough: both roles, keep and measure, same and different sockets and remotes, responses before recv_epr, deferred keep responses followed by keep or measure requests, per-pair waits) TLC explores every interleaving of instruction steps, deliveries and retries of the specification that mirrors the handler and checks: no handler error, consumed at most once, consumed by the owner request as pair k (owner computed from issue and arrival order, independently of the mechanism), retirement after exactly tot pairs, used = mapped + reserved, no overwrite of an allocated virtual qubit, waits only pass when defined, termination and draining under fairness. The rig then forces EVERY schedule on the real Executor (exhaustive stateless DFS pruned by projected state) and TLC validates each as a behaviour of Epr, comparing queues, pending list, result arrays, unit module, used set and pc after every action.",
+    note="Trusted: TLC, harness/rig.py (EprRun). Environment assumption: per (role, remote, purpose) responses arrive in generation order. The overtaking defect TLC found in the base handler was repaired in /repo (4376902); the spec mirrors the repaired handler (Scn.fix = no-overtake) and still contains the base variant."),
 }
 
 REASON_TODO = "check not built yet (work in progress; see DESIGN.md section 9)"
